@@ -185,10 +185,18 @@ Snapshot(s, s2) ==
   /\ stores' = SetStore(s2, StoreRec(TRUE, stores[s].file, stores[s].pos, stores[s].colls))
   /\ UNCHANGED files
 
+\* a closed store disappears from the model (ids are never reused by drivers)
 Close(s) ==
   /\ IsOpen(s)
-  /\ stores' = [stores EXCEPT ![s].open = FALSE, ![s].colls = EmptyFn]
+  /\ stores' = [x \in (DOMAIN stores) \ {s} |-> stores[x]]
   /\ UNCHANGED files
+
+\* a file nobody uses any more is forgotten (keeps validated traces small)
+DropFile(f) ==
+  /\ f \in DOMAIN files
+  /\ \A s \in DOMAIN stores : stores[s].file # f
+  /\ files' = [x \in (DOMAIN files) \ {f} |-> files[x]]
+  /\ UNCHANGED stores
 
 (***************************************************************************)
 (* CopyTo(dstFile, flushEvery): collections are copied in name order, each *)
